@@ -34,8 +34,10 @@
 
    Ghost components (not in the code, used to state theorems): arrival serial [e_ser], [e_forced],
    the log of every message ever sent [e_log], the graveyard [dead], the admission log [admitted].
-   Not modelled: RestartQuery (shares a channel between two qids), the per-query rqsLock, the
-   contents of messages, QUERY_UPDATE traffic.
+   Not modelled in [step]: RestartQuery (shares a channel between two qids), the contents of
+   messages, QUERY_UPDATE traffic.  The locks themselves (arqMapLock, waitingQueriesLock, the
+   per-query rqsLock) and which of them a function holds at its sends are modelled in the second
+   half of this file ("LOCK DISCIPLINE": [script], [exec], [lrun]).
    No proofs in this file. *)
 From SigM Require Import Base.
 Open Scope N_scope.
@@ -318,3 +320,202 @@ Definition step_prefix (mx : nat) (s : st) (o : op) : st * out :=
 
 Definition run_prefix (mx : nat) (s : st) (ops : list op) : st :=
   fold_left (fun s o => fst (step_prefix mx s o)) ops s.
+
+(* ------------------------------------------------------------------ *)
+(* LOCK DISCIPLINE around the sends on StateChan.
+
+   The step function above treats every function of querystatus.go as atomic and remembers only
+   "a sender is blocked while it holds a table lock" ([wedged]).  What follows makes the locks
+   explicit: arqMapLock (RWMutex), waitingQueriesLock (Mutex), the per-query rqsLock (RWMutex),
+   and the buffered StateChan whose receiver may be arbitrarily slow.
+
+   A function is a SCRIPT: the sequence of lock acquisitions, releases and channel sends it
+   performs.  A goroutine runs its script until the first action that cannot proceed and then
+   PARKS there, keeping every lock it has taken so far:
+     * Send q   cannot proceed when the channel of q is full ([full q]);
+     * Acq l Wr cannot proceed while a parked goroutine holds l (in any mode) or a writer waits for it;
+     * Acq l Rd cannot proceed while a parked goroutine holds l for writing OR WAITS for it for
+       writing (sync.RWMutex: a pending Lock() stops new RLock()s) - this is how one reader parked
+       with arqMapLock.RLock plus one StartQuery freeze every other query.
+   A goroutine that is not parked runs to the end of its script (same atomicity as [step]).
+   Parked goroutines are never woken here: the statements are about the time during which the
+   receiver does not read.  [full] may differ from step to step (channels fill and drain).
+
+   [script] lists the functions of querystatus.go; in particular
+       CancelQuery = ... rqsLock.Lock; isCancelled := true; rqsLock.Unlock;  StateChan <- CANCELLED
+   i.e. the CANCELLED send happens with NO lock held ([held_at_sends (script (LCancel q InRun))]
+   = [(q, [])]); the harness observes exactly this list of locks on the real code with TryLock
+   probes while the sender is parked.  No proofs in this file. *)
+(* ------------------------------------------------------------------ *)
+Inductive lockid := LArq | LWaitQ | LRqs (q : N).
+Inductive lmode := Rd | Wr.
+Inductive act := Acq (l : lockid) (m : lmode) | Rel (l : lockid) | Send (q : N).
+
+Definition lockid_eqb (a b : lockid) : bool :=
+  match a, b with
+  | LArq, LArq => true
+  | LWaitQ, LWaitQ => true
+  | LRqs x, LRqs y => x =? y
+  | _, _ => false
+  end.
+Definition is_wr (m : lmode) : bool := match m with Wr => true | Rd => false end.
+
+Inductive waitfor := WSend (q : N) | WAcq (l : lockid) (m : lmode).
+Record park := mkP { p_holds : list (lockid * lmode); p_wait : waitfor }.
+
+Definition holds_l (l : lockid) (p : park) : bool :=
+  existsb (fun h => lockid_eqb (fst h) l) (p_holds p).
+Definition holds_w (l : lockid) (p : park) : bool :=
+  existsb (fun h => lockid_eqb (fst h) l && is_wr (snd h)) (p_holds p).
+Definition waits_w (l : lockid) (p : park) : bool :=
+  match p_wait p with WAcq l' Wr => lockid_eqb l' l | _ => false end.
+
+Definition can_acq (ps : list park) (l : lockid) (m : lmode) : bool :=
+  match m with
+  | Wr => negb (existsb (fun p => holds_l l p || waits_w l p) ps)
+  | Rd => negb (existsb (fun p => holds_w l p || waits_w l p) ps)
+  end.
+
+Definition release (l : lockid) (held : list (lockid * lmode)) : list (lockid * lmode) :=
+  filter (fun h => negb (lockid_eqb (fst h) l)) held.
+
+(* run a script; None = ran to its end (holding nothing any more), Some p = parked as p *)
+Fixpoint exec (full : N -> bool) (ps : list park) (held : list (lockid * lmode)) (sc : list act) : option park :=
+  match sc with
+  | [] => None
+  | Acq l m :: r => if can_acq ps l m then exec full ps ((l, m) :: held) r else Some (mkP held (WAcq l m))
+  | Rel l :: r => exec full ps (release l held) r
+  | Send q :: r => if full q then Some (mkP held (WSend q)) else exec full ps held r
+  end.
+
+Definition lstep (ps : list park) (fs : (N -> bool) * list act) : list park :=
+  match exec (fst fs) ps [] (snd fs) with None => ps | Some p => ps ++ [p] end.
+Definition lrun (ps : list park) (steps : list ((N -> bool) * list act)) : list park :=
+  fold_left lstep steps ps.
+
+(* the locks a script holds at each of its sends *)
+Fixpoint held_at_sends (held : list (lockid * lmode)) (sc : list act) : list (N * list (lockid * lmode)) :=
+  match sc with
+  | [] => []
+  | Acq l m :: r => held_at_sends ((l, m) :: held) r
+  | Rel l :: r => held_at_sends (release l held) r
+  | Send q :: r => (q, held) :: held_at_sends held r
+  end.
+
+(* THE DISCIPLINE: whenever a script sends on a channel that may be full it holds no lock *)
+Fixpoint sends_unlocked (full : N -> bool) (held : list (lockid * lmode)) (sc : list act) : bool :=
+  match sc with
+  | [] => true
+  | Acq l m :: r => sends_unlocked full ((l, m) :: held) r
+  | Rel l :: r => sends_unlocked full (release l held) r
+  | Send q :: r => (negb (full q) || match held with [] => true | _ => false end) && sends_unlocked full held r
+  end.
+
+(* ---------- the scripts of querystatus.go ---------- *)
+Inductive place := InRun | InWait | Absent.   (* where the qid is when the function is called *)
+
+Inductive lop :=
+| LStart (q : N) (forced coord : bool)  (* StartQuery / StartQueryAsCoordinator, qid not running *)
+| LPull (h : option N)                  (* one iteration of PullQueriesToRun with a free slot; h = head of the queue *)
+| LCancel (q : N) (w : place)           (* CancelQuery *)
+| LTimeoutCancel (q : N)                (* the watcher after the deadline: TIMEOUT found room, then CancelQuery *)
+| LTimeoutSend (q : N)                  (* the watcher after the deadline, up to and including its TIMEOUT send
+                                           (arqMapLock.RLock released before it) *)
+| LDelete (q : N) (w : place)           (* DeleteQuery *)
+| LExecSend (q : N)                     (* rQuery.SendQueryStateComplete: a send through the pointer, no lock *)
+| LFinishSend (q : N)                   (* SetQidAsFinishedForPipeRespQuery / IncrementNumFinishedSegments (async):
+                                           lookup, rqsLock taken and released, then the send *)
+| LProgressSend (q : N)                 (* IncProgressForRRCCmd / SetPipeResp: QUERY_UPDATE sent while rqsLock is held (defer) *)
+| LAccessor (q : N)                     (* GetProgress, IsRawSearchFinished, GetQuerySearchStateForQid, ...:
+                                           arqMapLock.RLock released before rqsLock is taken *)
+| LNestedAccessor (q : N)               (* GetAllColsInAggsForQid / SetAllColsInAggsForQid: rqsLock taken
+                                           while arqMapLock.RLock is held *)
+| LCount.                               (* GetActiveQueryCount *)
+
+(* logGlobalSearchErrors -> GetOrCreateQuerySearchNodeResult, called first by CancelQuery and DeleteQuery *)
+Definition acc_script (q : N) (w : place) : list act :=
+  match w with
+  | InRun => [Acq LArq Rd; Rel LArq; Acq (LRqs q) Wr; Rel (LRqs q)]
+  | _ => [Acq LArq Rd; Rel LArq]
+  end.
+
+(* CancelQuery; [under_rqs] = false is the code (rqsLock released before the send), true is the
+   variant "rqsLock.Lock(); defer rqsLock.Unlock()" used by the refuted statement only *)
+Definition cancel_script (under_rqs : bool) (q : N) (w : place) : list act :=
+  acc_script q w ++
+  match w with
+  | InRun => [Acq LArq Rd; Rel LArq]
+  | _ => [Acq LArq Rd; Acq LWaitQ Wr; Rel LWaitQ; Rel LArq]   (* withLockRemoveFromWaitingQueriesQueue *)
+  end ++
+  match w with
+  | Absent => []
+  | _ => if under_rqs then [Acq (LRqs q) Wr; Send q; Rel (LRqs q)]
+         else [Acq (LRqs q) Wr; Rel (LRqs q); Send q]
+  end.
+
+Definition script (o : lop) : list act :=
+  match o with
+  | LStart q forced coord =>
+    [Acq LArq Wr] ++ (if coord then [Acq (LRqs q) Wr] else []) ++
+    (if forced then [Send q; Send q]                      (* withLockRunQuery: READY, RUNNING *)
+     else [Acq LWaitQ Wr; Rel LWaitQ]) ++                 (* addToWaitingQueriesQueue *)
+    (if coord then [Rel (LRqs q)] else []) ++ [Rel LArq]
+  | LPull h =>
+    [Acq LArq Rd; Rel LArq; Acq LWaitQ Wr; Rel LWaitQ] ++  (* canRunQuery, getNextWaitStateData *)
+    match h with
+    | None => []
+    | Some q => [Acq LArq Wr; Acq LWaitQ Wr; Rel LWaitQ; Send q; Send q; Rel LArq]   (* RunQuery *)
+    end
+  | LCancel q w => cancel_script false q w
+  | LTimeoutCancel q => [Acq LArq Rd; Rel LArq] ++ cancel_script false q InRun
+  | LTimeoutSend q => [Acq LArq Rd; Rel LArq; Send q]
+  | LDelete q w =>
+    acc_script q w ++ [Acq LArq Wr] ++
+    match w with InRun => [] | _ => [Acq LWaitQ Wr; Rel LWaitQ] end ++ [Rel LArq]
+  | LExecSend q => [Send q]
+  | LFinishSend q => [Acq LArq Rd; Rel LArq; Acq (LRqs q) Wr; Rel (LRqs q); Send q]
+  | LProgressSend q => [Acq LArq Rd; Rel LArq; Acq (LRqs q) Wr; Send q; Rel (LRqs q)]
+  | LAccessor q => [Acq LArq Rd; Rel LArq; Acq (LRqs q) Wr; Rel (LRqs q)]
+  | LNestedAccessor q => [Acq LArq Rd; Acq (LRqs q) Wr; Rel (LRqs q); Rel LArq]
+  | LCount => [Acq LArq Rd; Rel LArq]
+  end.
+
+(* the guard of the full-strength statement for the code: a query is started on a channel that is
+   not full (C17_admission_never_blocks / C17_waiting_untouched: a query that has never run has an
+   empty channel), and no QUERY_UPDATE is sent by IncProgressForRRCCmd / SetPipeResp *)
+Definition lop_ok (full : N -> bool) (o : lop) : bool :=
+  match o with
+  | LStart q forced _ => negb (forced && full q)
+  | LPull (Some q) => negb (full q)
+  | LProgressSend _ => false
+  | _ => true
+  end.
+
+Definition code_steps (steps : list ((N -> bool) * lop)) : list ((N -> bool) * list act) :=
+  map (fun fo => (fst fo, script (snd fo))) steps.
+
+(* what a probe of a lock with TryLock / TryRLock sees: 0 = free, 1 = held by readers only,
+   2 = a writer holds it or waits for it *)
+Definition probe (ps : list park) (l : lockid) : N :=
+  if existsb (fun p => holds_w l p || waits_w l p) ps then 2
+  else if existsb (holds_l l) ps then 1 else 0.
+
+(* ---------- notions used by the lock theorems ---------- *)
+(* a parked goroutine that holds nothing and waits for a receiver *)
+Definition harmless (p : park) : Prop := p_holds p = [] /\ exists q, p_wait p = WSend q.
+
+(* no send of the script goes to a full channel *)
+Definition targets_not_full (full : N -> bool) (sc : list act) : bool :=
+  forallb (fun a => match a with Send q => negb (full q) | _ => true end) sc.
+
+(* the queries a call concerns *)
+Definition lop_qids (o : lop) : list N :=
+  match o with
+  | LStart q _ _ | LCancel q _ | LTimeoutCancel q | LTimeoutSend q | LDelete q _ | LExecSend q | LFinishSend q
+  | LProgressSend q | LAccessor q | LNestedAccessor q => [q]
+  | LPull (Some q) => [q]
+  | LPull None | LCount => []
+  end.
+
+Definition only (q0 : N) : N -> bool := fun q => N.eqb q q0.   (* just the channel of q0 is full *)
+Definition nonefull : N -> bool := fun _ => false.
